@@ -16,9 +16,12 @@ the specification every cell is a function of its group's row list. Here:
         are the union, a group's rows are its rows in part one followed by its rows in part two, counts and sums add,
         minima and maxima combine.
 
-The hypotheses the property grants are stated, never hidden:
-  * `SumsOrderFree`: INT (INTERVAL) partial sums stay within range in every order (otherwise one order may report an
-    overflow and another not). For REAL addends: `RealAddLaws` (`Lemmas/AggPerm.lean`) — the model's `F64.add` satisfies
+The hypotheses are stated, never hidden — and ONE of them the property does NOT grant:
+  * `SumsOrderFree`, INT / INTERVAL clause (`intOk`): the partial sums stay within range in EVERY order. The sentence grants an
+    exception for REAL sums only; for INT sums whose exact total fits while a partial sum in some order does not, the code
+    (checked addition in arrival order) reports an overflow in one order and prints the total in another: that is the open
+    finding **D71** (exhibited by the extreme-INT stream of `./check C15`), and every theorem below that takes `SumsOrderFree`
+    (through `PermSafe` / `SplitSafe`) is about the inputs outside it. For REAL addends: `RealAddLaws` (`Lemmas/AggPerm.lean`) — the model's `F64.add` satisfies
     `0.0 + y = y` and `x + y = y + x` on the addends and `(A + B) + C = A + (B + C)` on the partial sums of sub-multisets
     of the addends. That the REAL sum does not depend on the order, and that the sums of two parts add up to the sum of
     the whole, is PROVED from these laws; and the laws are PROVED (`Lemmas/RealSums.lean` `realAddLaws_of_exactSums`) for
